@@ -20,8 +20,11 @@ LEVEL = "proof"
 SALT = 15
 
 
-LONG_LEXEMES = {r"[α-ω]+": "αβγ" * 20, r'"[^"]*"': '"' + "é" * 40 + '"', r"[A-Z]\w*": "X" + "éa" * 30,
-                r"[a-z]+": "ab" * 40, r"\d+": "1234567890" * 7}
+# lexemes of a little more than 50 bytes (Token's Debug abbreviates values above 50 bytes), multi-byte where the
+# recognizer admits it, made of characters the short string terminals of the pool do not match (a GLR parser with
+# lexical ambiguity over single letters would otherwise face dozens of tokens on a wildly ambiguous grammar)
+LONG_LEXEMES = {r"[α-ω]+": "αβγ" * 10, r'"[^"]*"': '"' + "é" * 27 + '"', r"[A-Z]\w*": "X" + "é" * 27,
+                r"[a-z]+": "zq" * 28}
 
 
 def garbage_inputs(rng, n):
@@ -53,7 +56,6 @@ def run(rep, tier, seed):
             for t, (kind, txt, _, _) in bgl[ci].lex.items():
                 if kind == "R" and txt in LONG_LEXEMES:
                     longs.append(LONG_LEXEMES[txt])
-                    longs.append(LONG_LEXEMES[txt] + " " + LONG_LEXEMES[txt])
         # seq=1: the harness also parses the whole list with ONE GlrParser instance (RESULT GLRS)
         glr_cases.append(Case(c.id + "_glr", c.grammar, [t for t in c.inputs if len(t) <= 32] + longs[:4], algo="GLR",
                               table="LALR_RN", run="GLR",
